@@ -1195,12 +1195,10 @@ func cloneRegexp(re *syntax.Regexp) *syntax.Regexp {
 		}
 	}
 
-	// Clone Sub0 (inline storage)
-	for i := range re.Sub0 {
-		if re.Sub0[i] != nil {
-			clone.Sub0[i] = cloneRegexp(re.Sub0[i])
-		}
-	}
+	// Sub0 is only inline backing storage for Sub; whatever it holds besides
+	// Sub[0] is stale (regexp/syntax recycles nodes while factoring alternations
+	// and may leave a pointer to an ancestor there). Following it can loop
+	// forever, e.g. for `a*(?:bs{2}c|bd)`, so it is deliberately not cloned.
 
 	return clone
 }
